@@ -1131,9 +1131,9 @@ def expected_headers(headers):
 
 def c02_scripts(ctx):
     rng = ctx.rng
-    n = 500 if ctx.tier == "quick" else 5000
+    n = 1500 if ctx.tier == "quick" else 8000
     out, meta = [], []
-    opts = {"folding": True, "repeat": True, "urlenc_bodies": True, "close_delimited": True}
+    opts = {"folding": True, "repeat": True, "urlenc_bodies": True, "close_delimited": True, "digest": True}
     for _ in range(n):
         reqs, ress, rq, rs = traffic.gen_exchange(rng, opts=opts)
         R, S = b"".join(rq), b"".join(rs)
@@ -1206,9 +1206,21 @@ def make_c02_oracle(by_id):
             au = [p[0] for n, p in rq.headers if n.lower() == b"authorization"]
             if au:
                 import base64
-                u, _, pw = base64.b64decode(au[0][6:]).partition(b":")
                 a = t["auth"].split(":")
-                chk("credentials", (cl.unhx(a[1]), cl.unhx(a[2])), (u, pw))
+                if getattr(rq, "digest_user", None) is not None:
+                    chk("credentials", (a[0], cl.unhx(a[1]), a[2]), ("3", rq.digest_user, "~"))
+                else:
+                    u, _, pw = base64.b64decode(au[0][6:]).partition(b":")
+                    chk("credentials", (a[0], cl.unhx(a[1]), cl.unhx(a[2])), ("2", u, pw))
+            # body parameters of a urlencoded body: the reference rule (split on '&', first '=', drop only a final empty piece)
+            cts = [p[0] for n, p in rq.headers if n.lower() == b"content-type"]
+            if cts and cts[0].startswith(b"application/x-www-form-urlencoded") and rq.body and not (b"%" in rq.body or b"+" in rq.body):
+                pieces = rq.body.split(b"&")
+                if pieces and pieces[-1] == b"":
+                    pieces = pieces[:-1]
+                want = [(k, v) for k, _, v in (pc.partition(b"=") for pc in pieces)]
+                got = [(cl.unhx(x.split("=")[0]), cl.unhx(x.split("=")[1].split("@")[0])) for x in t["params"].split(",") if x.endswith("@3")]
+                chk("body_params", got, want)
             # query parameters (the generator uses unreserved characters and %-free tokens: decoding is the identity except '+')
             if b"?" in rq.target and t["params"] != "":
                 q = rq.target.split(b"?", 1)[1]
